@@ -22,6 +22,7 @@ struct Observed {
     int reached = 0;                 // actual calls whose statement completed
     int ret[8]; unsigned char outb[8]; unsigned char xb[8];
     bool checked = false;
+    bool leftover = false;           // expectations still registered after the test ended
 };
 
 void run_cpp(const Scenario& s, Observed& ob) {
@@ -58,6 +59,9 @@ void run_cpp(const Scenario& s, Observed& ob) {
         },
         nullptr,
         [&]() { mock().checkExpectations(); ob.checked = true; mock().clear(); });
+    // whatever the verdict, the test leaves the mock empty: on a failure the framework clears it before the reporter ends
+    // the test (the user's own clear() after checkExpectations is skipped then), otherwise the teardown's clear() ran
+    ob.leftover = mock().expectedCallsLeft();
     mock().clear();
     ob.failures = fx.failures();
     if (ob.failures) { ob.text = fx.output(); ob.diag = classify_message(ob.text); }
@@ -97,6 +101,13 @@ void check(const Scenario& s, const Alphabet& A) {
                  d() + ": reference says " + diag_name(ex.diag) + vf::fmt(" at call %d", ex.failing_call) + "; framework: " + (ob.failures ? ob.text.substr(0, 300) : std::string("test passed")));
         return;
     }
+    // When the end-of-test check itself fails the test (unfulfilled expectation, calls out of order) the user's own
+    // clear() behind checkExpectations() is skipped, so the framework empties the mock before it ends the test; a passing
+    // test is emptied by the teardown's clear(). (A failure raised by an actual call leaves the expectations in place by
+    // design - the teardown still runs and clears; a deferred one finalised inside checkExpectations() is the one case in
+    // which they survive on the unchanged code too: not asserted, see DESIGN.md 9.2 observations.)
+    if (ob.leftover && (ex.diag == PASS || ex.diag == NOT_FULFILLED || ex.diag == OUT_OF_ORDER))
+        vf::fail("state/expectations-survive-the-test", d() + vf::fmt(": after the test (%s) the mock still holds unfulfilled expectations: they would be charged to the next test", diag_name(ex.diag)));
     // the failure is raised where the reference says it becomes known; no later call statement completes
     if (ex.diag != PASS && ob.reached > ex.raised_at)
         vf::fail(vf::fmt("abort/statements-after-%s-executed", diag_name(ex.diag)), d() + vf::fmt(": %d call statements completed, the failure (call %d) is raised during statement %d", ob.reached, ex.failing_call, ex.raised_at));
